@@ -266,3 +266,42 @@ def flow_walk(st, start, is_cut, forbidden, tags=()):
             opaque.add(v)
         work.extend(nxt)
     return bad, opaque
+
+
+def local_split(st, X, exclude=()):
+    """vids that provably hold the local day / local nanoseconds of an instant whose shifted affine form is X:
+    (lds, lns) with 0 <= ln < 86_400e9, ln == X (mod 86_400e9) and 86_400e9*ld + ln == X"""
+    lns = set()
+    cand = [v for v in st.iv if v not in D.CONSTVAL and v not in exclude and (v in D.TRIPLES or v in D.AFF)]
+    for v in cand:
+        lo, hi = D.get_iv(st, v)
+        if 0 <= lo and hi < NPD and D.aff_equiv(D.aff_of(v), X, NPD, st=st):
+            lns.add(v)
+    lds = set()
+    for v in cand:
+        if v in lns:
+            continue
+        lo, hi = D.get_iv(st, v)
+        if lo < -(1 << 31) or hi >= (1 << 31):
+            continue
+        for ln in lns:
+            if D.aff_equiv(D.aff_add(D.aff_scale(D.aff_of(v), NPD), D.aff_of(ln)), X, 0, st=st):
+                lds.add(v)
+                break
+    return lds, lns
+
+
+def aff_equal_cong(st, f1, f2, m):
+    """f1 == f2 proved either exactly, or because they are congruent modulo m and their difference lies in (-m, m)"""
+    if D.aff_equiv(f1, f2, 0, st=st):
+        return True
+    if not D.aff_equiv(f1, f2, m, st=st):
+        return False
+    d = D.aff_add(f1, f2, -1)
+    if d is None or d.mod:
+        return False
+    for f in sorted(D.aff_variants(d), key=lambda a: len(a.co)):
+        iv = D.eval_aff(st, D.aff_concretize(st, f), depth=0)
+        if iv is not None and -m < iv[0] and iv[1] < m:
+            return True
+    return False
